@@ -9,7 +9,7 @@ import Edn.Spec.StringLit
 import Edn.Model.Reader
 import Edn.Proofs.Equal
 import Edn.Proofs.Str
-import Edn.Proofs.TextBlockAux2
+import Edn.Proofs.TextBlockAux3
 
 namespace Edn.Proofs
 open Edn.Model Edn.Spec
@@ -62,7 +62,30 @@ theorem readString_textblock (ctx : Ctx) (hexp : ctx.cfg.exp = true) (lines : Li
 theorem blockText_final_newline (lines : List SrcLine) (c : Closer) (hne : lines ≠ [])
     (hl : ∀ l ∈ lines, l.WF) (hc : c.WF lines) :
     ((blockText lines c).getLast? = some 0x0A) ↔ (∃ ind, c = .ownLine ind) := by
-  sorry
+  cases c with
+  | ownLine ind =>
+    refine ⟨fun _ => ⟨ind, rfl⟩, fun _ => ?_⟩
+    obtain ⟨l, hlast⟩ : ∃ l, lines.getLast? = some l := by
+      cases h : lines.getLast? with
+      | none => exact absurd (List.getLast?_eq_none_iff.mp h) hne
+      | some l => exact ⟨l, rfl⟩
+    have hsplit := dropLast_concat_of_getLast? lines l hlast
+    rw [← hsplit]
+    simp [blockText]
+  | inline =>
+    constructor
+    · intro h
+      exfalso
+      obtain ⟨l, hlast, hb, _, _⟩ := hc
+      have hwf : l.WF := hl l (List.mem_of_getLast? hlast)
+      have hn := lineText_ne_nil (commonIndent lines .inline) l hwf hb
+      simp only [blockText, hlast] at h
+      rw [List.getLast?_append, List.getLast?_eq_some_getLast hn, Option.some_or] at h
+      have hm := List.getLast_mem hn
+      rw [Option.some.inj h] at hm
+      exact lineText_noLF _ l hwf _ hm rfl
+    · rintro ⟨ind, h⟩
+      cases h
 
 /-- a text-block value and an ordinary literal spelling the same content are equal, hash alike
     (hence collide in sets and as map keys) -/
